@@ -318,12 +318,17 @@ class ConvolvedFluxes(object):
             # same units as the current ones for the interpolation, and we need
             # to add the flux unit back.
 
+            # The conversion can round a value that was reset to the maximum to
+            # just above it, so we also limit the converted values.
+            requested = np.minimum(c.apertures.to(self.apertures.unit).value,
+                                   self.apertures.value.max())
+
             flux_interp = interp1d(self.apertures, self.flux)
-            c.flux = flux_interp(c.apertures.to(self.apertures.unit)) * self.flux.unit
+            c.flux = flux_interp(requested) * self.flux.unit
 
             # The following is not strictly correct - errors from interpolation is not interpolation of errors
             error_interp = interp1d(self.apertures, self.error)
-            c.error = error_interp(c.apertures.to(self.apertures.unit)) * self.error.unit
+            c.error = error_interp(requested) * self.error.unit
 
         else:
 
